@@ -78,7 +78,8 @@ def handler(run):
                     cpos = (p0[0].elem([]) > 0) if p0 else cpos
                 if uses_c:
                     run.add(f"C05/scales-stay-positive[{tag}]/out{k}", r.hyps + inb + pf + facts + [cpos], g, "property", inst, replay=rp)
-                    run.add(f"C05/scales-stay-positive-negative-scalar[{tag}]/out{k}", r.hyps + inb + pf + facts + [z3.Not(cpos)], g, "property", inst, replay=rp)
+                    run.add(f"C05/scales-stay-positive-negative-scalar[{tag}]/out{k}", r.hyps + inb + pf + facts + [z3.Not(cpos)], g, "property", inst,
+                            replay=lambda m, s, c=cs["name"], i=dict(inst): replay(m, s, c, i, negative=True))
                 else:
                     run.add(f"C05/scales-stay-positive[{tag}]/out{k}", r.hyps + inb + pf + facts, g, "property", inst, replay=rp)
         for o in r.obligations:
@@ -201,11 +202,12 @@ def requant_ops(run, on_result=None, prefix="C05"):
                         continue
                     for o in r.obligations:
                         if o.kind in ("torch-pre", "callee-pre", "assert"):
-                            run.add(f"C05/requant/no-runtime-error[{tag}]/path{pi}/{o.name}@{o.loc}", o.hyps, o.goal, "property", inst, replay=rp)
+                            run.add(f"C05/requant/no-runtime-error[{tag}]/path{pi}/{o.name}@{o.loc}", o.hyps, o.goal, "property", inst,
+                                    replay=lambda m, sd, i_=dict(inst): replay_requant(m, sd, i_, "shape"))
                     if not isinstance(rd, STensor):
                         run.add(f"C05/requant/returns-a-tensor[{tag}]/path{pi}", r.hyps, z3.BoolVal(False), "property", inst, replay=rp)
                         continue
-                    run.add(f"C05/requant/shape[{tag}]/path{pi}", r.hyps, lib.shape_eq(rd.shape, [d0, d1]), "property", inst, replay=rp)
+                    run.add(f"C05/requant/shape[{tag}]/path{pi}", r.hyps, lib.shape_eq(rd.shape, [d0, d1]), "property", inst, replay=lambda m, sd, i=dict(inst): replay_requant(m, sd, i, "shape"))
                     if len(rd.shape) != 2:
                         continue
                     ids, inb = lib.idx_vars("i", [d0, d1])
@@ -250,7 +252,7 @@ def requant_ops(run, on_result=None, prefix="C05"):
                     facts2 = E.drain()
                     hy = hy + facts2
                     qmax = QMAX[qname]
-                    run.add(f"C05/requant/output-scale-positive[{tag}]/path{pi}", hy, s > 0, "property", inst, replay=rp)
+                    run.add(f"C05/requant/output-scale-positive[{tag}]/path{pi}", hy, s > 0, "property", inst, replay=None)
                     if qname == "qint8":
                         rel_in = rel_out = absr(got - u) <= s
                     else:
@@ -271,12 +273,14 @@ def requant_ops(run, on_result=None, prefix="C05"):
                     if opname == "_softmax":
                         run.add(f"C05/requant/within-one-output-step[{tag}]/path{pi}", hy, rel_in, "property", inst, replay=rp, timeout=40)
                     else:
-                        run.add(f"C05/requant/where/taken-from-the-quantized-input-is-exact[{tag}]/path{pi}", hy + [c], got == u, "property", inst, replay=rp, timeout=40)
-                        run.add(f"C05/requant/where/other-inside-the-input-range-within-one-step[{tag}]/path{pi}", hy + [z3.Not(c), in_range], rel_in, "property", inst, replay=rp, timeout=40)
-                        run.add(f"C05/requant/where/other-outside-the-input-range-within-one-step[{tag}]/path{pi}", hy + [z3.Not(c), z3.Not(in_range)], rel_out, "property", inst, replay=rp, timeout=40)
+                        run.add(f"C05/requant/where/taken-from-the-quantized-input-is-exact[{tag}]/path{pi}", hy + [c], got == u, "property", inst, replay=lambda m, sd, i_=dict(inst): replay_requant(m, sd, i_, "taken"), timeout=40)
+                        run.add(f"C05/requant/where/other-inside-the-input-range-within-one-step[{tag}]/path{pi}", hy + [z3.Not(c), in_range], rel_in, "property", inst, replay=lambda m, sd, i_=dict(inst): replay_requant(m, sd, i_, "inside"), timeout=40)
+                        run.add(f"C05/requant/where/other-outside-the-input-range-within-one-step[{tag}]/path{pi}", hy + [z3.Not(c), z3.Not(in_range)], rel_out, "property", inst, replay=lambda m, sd, i_=dict(inst): replay_requant(m, sd, i_, "outside"), timeout=40)
 
 
-def replay_requant(model, seed, inst):
+def replay_requant(model, seed, inst, clause="all"):
+    """clause: 'all', 'shape', 'taken' (elements selected from the quantized input), 'inside' / 'outside' (elements selected from `other`
+    inside / outside the representable range of the input's scale)."""
     import torch
     from optimum.quanto import qtypes
 
@@ -287,12 +291,12 @@ def replay_requant(model, seed, inst):
     x = torch.randn(3, 4)
     qx = Q(x, qt, axis)
     cond = torch.tensor([[True, False, True, False]] * 3)
-    big = torch.full((3, 4), 100.0)
+    big = torch.full((3, 4), 100.0 if clause in ("all", "outside") else 0.01)
     case = inst["case"]
     progs = {
         "_softmax": lambda: (torch.softmax(qx, -1), torch.softmax(qx.dequantize(), -1)),
         "where-q-plain": lambda: (torch.where(cond, qx, big), torch.where(cond, qx.dequantize(), big)),
-        "where-q-scalar": lambda: (torch.where(cond, qx, 100.0), torch.where(cond, qx.dequantize(), 100.0)),
+        "where-q-scalar": lambda: (torch.where(cond, qx, big[0, 0].item()), torch.where(cond, qx.dequantize(), big[0, 0].item())),
         "where-q-q": lambda: (torch.where(cond, qx, Q(big + x, qt, axis)), torch.where(cond, qx.dequantize(), Q(big + x, qt, axis).dequantize())),
         "where-plain-q": lambda: (torch.where(cond, big, qx), torch.where(cond, big, qx.dequantize())),
     }
@@ -303,9 +307,15 @@ def replay_requant(model, seed, inst):
     gd = got.dequantize() if hasattr(got, "dequantize") else got
     if tuple(gd.shape) != tuple(want.shape):
         return {"case": case, "what": "shape differs"}
+    if clause == "shape":
+        return None
     step = got._scale.max().item() if hasattr(got, "_scale") else 1e-6
     rel = 2.0 ** -3 if inst["qtype"] != "qint8" else 0.0
     bad = (gd - want).abs() > (step + rel * want.abs() + 1e-6)
+    if clause == "taken" and case.startswith("where-q"):
+        bad = bad & cond
+    elif clause in ("inside", "outside") and case.startswith("where-q"):
+        bad = bad & ~cond
     if bad.any():
         k = bad.nonzero()[0].tolist()
         return {"case": case, "qtype": inst["qtype"], "axis": axis, "what": "differs from the float result by more than one step of the output scale",
@@ -358,8 +368,9 @@ def native_cases():
     return Q
 
 
-def replay(model, seed, case, inst):
-    """Run the same op on real quantized tensors and on their dequantized values."""
+def replay(model, seed, case, inst, negative=False):
+    """Run the same op on real quantized tensors and on their dequantized values.  negative=True: the two-step witnesses of the
+    negative-scale finding (an op on the codes after a multiplication by a negative scalar)."""
     import torch
     from optimum.quanto import qtypes
 
@@ -378,14 +389,16 @@ def replay(model, seed, case, inst):
         "stack-any-scales": lambda: (torch.stack([qa, qb]), torch.stack([qa.dequantize(), qb.dequantize()])),
         "copy_-plain-from-q": lambda: (torch.zeros(3, 4).copy_(qa), torch.zeros(3, 4).copy_(qa.dequantize())),
         "div-plain-by-q": lambda: (torch.div(y, qa), torch.div(y, qa.dequantize())),
-        "lt-same-scale": lambda: (torch.lt(qa * -1.0, qsame * -1.0), torch.lt(qa.dequantize() * -1.0, qsame.dequantize() * -1.0)),
+        "lt-same-scale": lambda: (torch.lt(qa, qsame), torch.lt(qa.dequantize(), qsame.dequantize())),
         "lt-any-scales": lambda: (torch.lt(qa, qb), torch.lt(qa.dequantize(), qb.dequantize())),
-        "relu": lambda: (torch.relu(qa * -2.0), torch.relu(qa.dequantize() * -2.0)),
+        "relu": lambda: (torch.relu(qa), torch.relu(qa.dequantize())),
         "t-1d": lambda: (Q(x[0], qt).t(), Q(x[0], qt).dequantize().t()),
         "mul-q-1elem-tensor": lambda: (qa * torch.full((1, 1, 1), 0.5), qa.dequantize() * torch.full((1, 1, 1), 0.5)),
         "split-size": lambda: (torch.split(qa, 2), torch.split(qa.dequantize(), 2)),
         "neg": lambda: (torch.relu(-qa), torch.relu(-(qa.dequantize()))),
     }
+    if negative:
+        progs = {case: lambda: (torch.relu(qa * -2.0), torch.relu(qa.dequantize() * -2.0))}
     f = progs.get(case)
     if f is None:
         return None
@@ -466,11 +479,13 @@ def view_write_programs(run):
                     facts = E.drain() + list(E.ps.get("lazy_facts", []))
                     hy = r.hyps + [i >= 0, i < d0, j >= 0, j < d1] + facts
                     kind = "same-scale" if same_scale else "other-scale"
-                    run.add(f"C05/view-write/{kind}/written-row-takes-the-source[{tag}]/path{pi}", hy + [i == 0], c == b, "property", inst, replay=rp, timeout=30)
-                    run.add(f"C05/view-write/{kind}/other-rows-keep-their-values[{tag}]/path{pi}", hy + [i > 0], c == a, "property", inst, replay=rp, timeout=30)
+                    run.add(f"C05/view-write/{kind}/written-row-takes-the-source[{tag}]/path{pi}", hy + [i == 0], c == b, "property", inst, timeout=30,
+                            replay=lambda m, sd, i_=dict(inst): replay_view_write(m, sd, i_, "written"))
+                    run.add(f"C05/view-write/{kind}/other-rows-keep-their-values[{tag}]/path{pi}", hy + [i > 0], c == a, "property", inst, timeout=30,
+                            replay=lambda m, sd, i_=dict(inst): replay_view_write(m, sd, i_, "others"))
 
 
-def replay_view_write(model, seed, inst):
+def replay_view_write(model, seed, inst, clause="both"):
     import torch
     from optimum.quanto import qtypes
 
@@ -491,9 +506,11 @@ def replay_view_write(model, seed, inst):
     after = qx.dequantize()
     want = before.clone()
     want[0:1].copy_(p.dequantize())
-    if not torch.allclose(after, want, atol=1e-6):
-        return {"what": "q[0:1].copy_(p) does not act like the float program: rows other than the written one changed" if not torch.allclose(after[1:], want[1:], atol=1e-6)
-                else "the written row differs from the source", "max_abs_diff": (after - want).abs().max().item(), "qtype": inst["qtype"], "axis": axis}
+    if clause in ("both", "others") and not torch.allclose(after[1:], want[1:], atol=1e-6):
+        return {"what": "q[0:1].copy_(p) does not act like the float program: rows other than the written one changed", "max_abs_diff": (after[1:] - want[1:]).abs().max().item(),
+                "qtype": inst["qtype"], "axis": axis}
+    if clause in ("both", "written") and not torch.allclose(after[:1], want[:1], atol=1e-6):
+        return {"what": "the written row differs from the source", "max_abs_diff": (after[:1] - want[:1]).abs().max().item(), "qtype": inst["qtype"], "axis": axis}
     return None
 
 
